@@ -312,6 +312,24 @@ def gen(run):
                     cases.append({"text": K.crunch(text), "opts": {}, "hbuff": name == "hbuff", "features": feats | {"crunched"}, "origin": f"{name} {c} {sn} crunched"})
         run.states += len(combos) * len(ss)
         run.transitions += len(combos) * len(ss)
+    # every form inside control contexts (the operands must reach the runtime from any arm / loop body / statement position)
+    ctxs = [("then", "IF P9 = 1 THEN {}"), ("else", "IF P9 = 0 THEN P8 = 1 ELSE {}"), ("elseif-else", "IF P9 = 0 THEN P8 = 1 ELSE IF P9 = 5 THEN P8 = 2 ELSE {}"),
+            ("elseif-arm", "IF P9 = 0 THEN P8 = 1 ELSE IF P9 = 1 THEN {} ELSE P8 = 3"), ("nested", "IF P9 = 1 THEN IF P8 = 0 THEN {}"), ("for-body", "FOR I9 = 1 TO 1 : {} : NEXT I9"),
+            ("after-colon", "P8 = 2 : {}"), ("before-colon", "{} : P8 = 2")]
+    nctx = 0
+    for name, tpl in FORMS:
+        n = len(re.findall(r"\{\d\}", tpl))
+        for sh in ("lit", "conv"):
+            base = build(name, tpl, [sh] * n, '"TXT"')
+            l10, l20 = base.rstrip("\n").split("\n")
+            body = l20[3:]
+            for cname, ctpl in ctxs:
+                text = l10 + ":P9=1\n20 " + ctpl.replace("{}", body) + "\n"
+                feats = {"form:" + name, "ctx:" + cname} | ({"operand-conv"} if sh == "conv" else set()) | ({"uses-joystk"} if name.startswith("joystk") else set())
+                cases.append({"text": text, "opts": {}, "hbuff": name == "hbuff", "features": feats, "origin": f"{name} {sh} in {cname}"})
+                nctx += 1
+    run.states += nctx
+    run.transitions += nctx
     # speed pokes (literal addresses only)
     for a in ("65496", "65497", "&HFFD8", "&HFFD9", "65495", "65498"):
         for val in ("0", "1", "V"):
